@@ -189,7 +189,7 @@ pub fn gen_program(r: &mut ChaChaRng, m: i64, kind: &str, id: String) -> Program
             }
             expect_v = "reject".into();
         }
-    } else if kind == "honest" || kind == "tamper" || kind == "tamper2" {
+    } else if kind == "honest" || kind == "tamper" || kind == "tamper2" || kind == "surplus" {
         expect_v = "ok".into();
     }
     let cap_need = pad2(n);
@@ -214,6 +214,19 @@ pub fn gen_program(r: &mut ChaChaRng, m: i64, kind: &str, id: String) -> Program
             1 => Edit::Addpt { f: f.into(), v: nzval(r, m) },
             _ => Edit::Swap { f: f.into(), g: ["AI1", "T1", "S1"][r.gen_range(0..3)].into() },
         });
+        expect_v = "reject".into();
+    }
+    if kind == "surplus" {
+        // more (or fewer) inner-product rounds than the padded size calls for, with arbitrary points: the shape guard must reject,
+        // whatever the algebra of the extra terms happens to give (visible on 7- and 79-element groups)
+        let rounds = r.gen_range(1..3);
+        for _ in 0..rounds {
+            tamper.push(Edit::Push { f: "L".into(), v: nzval(r, m) });
+            tamper.push(Edit::Push { f: "R".into(), v: nzval(r, m) });
+        }
+        if r.gen_bool(0.3) {
+            tamper.push(Edit::Add { f: "a".into(), v: nzval(r, m) });
+        }
         expect_v = "reject".into();
     }
     if kind == "tamper" {
